@@ -99,11 +99,13 @@ def run_closed(ctx, case):
     c = case
     rho = build(c)
     rho = (rho + rho.conj().T) / 2
+    layout = ref.LAYOUTS[(c['prng'] // 7) % len(ref.LAYOUTS)]
+    rho = ref.with_layout(rho, layout)  # same values; the measures are functions of the matrix, not of its strides
     rank = int((np.linalg.eigvalsh(rho) > 1e-12).sum())
     Cq = float(E.get_concurrence_2qubit(rho))
     tiny = 0 < Cq < 1e-6
     ctx.note(klass=c['kind'], desc=[c['kind'], rank, int(c['eps_exp']) if c['kind'] == 'near_separable' else 0, 'tiny' if tiny else ('zero' if Cq == 0 else 'pos')],
-             nontrivial=(c['kind'] not in ('werner', 'isotropic') or tiny), labels=[c['kind'], f'rank={rank}', 'tiny concurrence' if tiny else ('C=0' if Cq == 0 else 'C>0')])
+             nontrivial=(c['kind'] not in ('werner', 'isotropic') or tiny), labels=[c['kind'], f'rank={rank}', 'tiny concurrence' if tiny else ('C=0' if Cq == 0 else 'C>0'), 'layout=' + layout])
     rho_before = rho.copy()
     C, F, G = closed_forms(ctx, rho, c['kind'])
     ctx.close(rho, rho_before, 0, 'closed-form measures do not modify the state')
